@@ -150,6 +150,35 @@ CLAIMS['C19'] = (
     'findings/known_findings.jsonl with its exact key',
     'DESIGN.md §6 C19')
 
+CLAIMS['C08'] = (
+    'model_checking',
+    'explicit-state breadth-first exploration of edit histories on real project trees; regeneration triggered by the real make / refninja through the generated rule; differential oracle against a fresh configure',
+    'For 4 (quick) / 5 (thorough) project variants using find_files (single pattern; several bases with extra and '
+    'exclude; platform filter and cache=False; directory()/header_directory(include=); submodule + options + '
+    'pkg-config) and both backends, breadth-first search to depth 2/3 over 12 edit operations (add matching / '
+    'non-matching / extra / excluded file, remove, rename, add and remove directories, edit and touch build.bfg, edit '
+    'options/submodule script) from the built initial state and every reached state (snapshots carry the real build '
+    'tree along). After every edit the backend tool itself is run; oracles at every node: build files byte-identical '
+    'to a fresh configure into the same path with the same saved configuration (auxiliary files as sets), and a '
+    'second run invokes bfg9000 zero times (counted by a wrapper in BFG9000=).',
+    'edits are strictly newer than the last generation (equal-timestamp edits excluded); refninja is the meaning of '
+    'the Ninja manifest',
+    'DESIGN.md §6 C08')
+
+CLAIMS['C10'] = (
+    'fault_enumeration',
+    'exhaustive crash-point enumeration: every file-system mutation point of a regeneration (plus truncated/torn states of every written file) x every follow-up sequence, in forked children with fs calls interposed',
+    'For each scenario (add/remove a matching file, edit build.bfg, edit options.bfg, initial configure) and backend, '
+    'the regeneration is run once uninterrupted in a forked child with open/remove/utime/makedirs/rename wrapped to '
+    'list its mutation points; it is then re-run once per point and killed with os._exit immediately before it '
+    '(files seen absent/old, truncated, half-written, complete). From every crashed state every sequence of <=1 '
+    '(quick) / <=2 (thorough) follow-ups over {make/refninja, regenerate --lazy, regenerate} is executed on the real '
+    'tools; either one fails visibly or the build file and all declared regeneration outputs equal the '
+    'uninterrupted run and a build succeeds. Raising/exiting/unparsable scripts must exit non-zero and leave the '
+    'build file untouched. Every counted point must be hit.',
+    'crash model = process death between file-system calls (no power-failure reordering)',
+    'DESIGN.md §6 C10')
+
 # --- more claims are appended above this line ---
 NOT_YET = 'check not built yet in this session (see DESIGN.md §10 build order); not claimed until it is'
 NOT_APPLICABLE = {}
